@@ -16,6 +16,8 @@ class HarnessError(Exception):
 
 
 def bootstrap():
+    from . import simtime
+    simtime.install()      # before the tree under test is imported, so that `from time import ...` binds to the seam
     sys.dont_write_bytecode = True
     os.environ['PYTHONDONTWRITEBYTECODE'] = '1'
     if not sys.path or sys.path[0] != MIDO_ROOT:
